@@ -3,6 +3,7 @@ package props
 import (
 	"encoding/json"
 	"fmt"
+	"github.com/go-kid/ioc/container"
 	"regexp"
 	"sort"
 	"strings"
@@ -379,7 +380,20 @@ type c10ScanComp struct {
 func (x *c10ScanComp) ID() string     { return x.Nm }
 func (x *c10ScanComp) Naming() string { return x.Nm }
 
+// c10FailScan is a user scanner that registers every component and fails on the masked ones.
+type c10FailScan struct{ fail [4]bool }
+
+func (f *c10FailScan) Naming() string { return "zscan" }
+func (f *c10FailScan) PostProcessDefinitionRegistry(r container.DefinitionRegistry, c any, name string) error {
+	r.GetMetaOrRegister(name, c)
+	if len(name) == 2 && name[0] == 's' && f.fail[name[1]-'0'] {
+		return fmt.Errorf("scan failed on %s", name)
+	}
+	return nil
+}
+
 type c10ScanCase struct {
+	Fail   int   `json:"user_scanner_fails_on_mask,omitempty"` // > 0: a user scanner instead of the built-in ones
 	N      int   `json:"components"`
 	Order  []int `json:"spawn_order"`
 	Bound  int   `json:"preemption_bound"`
@@ -399,6 +413,16 @@ func c10Scan(c *core.Ctx) {
 				}
 			}
 		}
+		// a user scanner that fails on a subset: failure or success is the same on every schedule
+		for n := 1; n <= 2; n++ {
+			for fm := 1; fm < 1<<n; fm++ {
+				for k := 0; k < factorialInt(n); k++ {
+					if !yield(c10ScanCase{N: n, Fail: fm, Order: scen.NthPerm(n, k), Bound: 3 - n}) {
+						return
+					}
+				}
+			}
+		}
 	}
 	var reference string
 	Cases(c, gen, func(c *core.Ctx, cs c10ScanCase) {
@@ -412,9 +436,17 @@ func c10Scan(c *core.Ctx) {
 			for i := 0; i < cs.N; i++ {
 				reg.RegisterSingleton(&c10ScanComp{Nm: fmt.Sprintf("s%d", i)})
 			}
-			reg.RegisterSingleton(processors.NewDependencyAwarePostProcessors())
-			if cs.N == 1 {
-				reg.RegisterSingleton(processors.NewValueAwarePostProcessors()) // a second scanner phase
+			if cs.Fail > 0 {
+				fs := &c10FailScan{}
+				for i := 0; i < cs.N; i++ {
+					fs.fail[i] = cs.Fail>>i&1 == 1
+				}
+				reg.RegisterSingleton(fs)
+			} else {
+				reg.RegisterSingleton(processors.NewDependencyAwarePostProcessors())
+				if cs.N == 1 {
+					reg.RegisterSingleton(processors.NewValueAwarePostProcessors()) // a second scanner phase
+				}
 			}
 			f := factory.Default()
 			f.SetRegistry(reg)
@@ -443,7 +475,7 @@ func c10Scan(c *core.Ctx) {
 			if first == "" {
 				first = s
 			}
-			key := "C10/scan/" + core.Hash(cs.N)
+			key := "C10/scan/" + core.Hash(cs.N, cs.Fail)
 			switch {
 			case e.Deadlock || len(e.ChildPanics) > 0:
 				c.Outcome("scan/crash")
@@ -471,7 +503,7 @@ func c10Scan(c *core.Ctx) {
 			c.Cap("scan schedule exploration truncated by the budget")
 		}
 		// every spawn order of one component count must give the same registry as well
-		if cs.N == 3 {
+		if cs.N == 3 && cs.Fail == 0 {
 			if reference == "" {
 				reference = first
 			} else if reference != first {
